@@ -423,6 +423,29 @@ class VNet:
                 self.pending = keep
             pend = self.pending
             if not pend:
+                # nothing is in flight - but a recorded datagram may still be replayed into the silence
+                # (only scenarios that register replayable datagrams with a positive count get this point)
+                late = [k for k, sp in enumerate(self.spoofable)
+                        if sp[4] > 0 and sp[3] in self.endpoints and len(sp) > 5 and sp[5] == "when_idle"]
+                if late and self.faults and (self.window is None or self.window[0] <= self.points < self.window[1]):
+                    menu = [("idle",)] + [("spoof", k) for k in late]
+                    obs = ("idle", loop.iterations, int(round(loop.elapsed() * 1e7)),
+                           None if timeout is None else int(round(timeout * 1e7)), len(menu), len(loop.exc_log))
+                    self.h = zlib.crc32(repr(obs).encode(), self.h)
+                    self.hs.append(self.h)
+                    k = self.chooser.choose(len(menu), [0] + [1] * len(late))
+                    self.points += 1
+                    if k:
+                        self.deviations.append("spoof")
+                        sp = self.spoofable[menu[k][1]]
+                        sp[4] -= 1
+                        self.seq += 1
+                        d = Datagram(self.seq, sp[2], sp[3], sp[1], "spoof:" + sp[0])
+                        if self.trace is not None:
+                            self.trace.append("[%3d] it=%d t=%.6f nothing in flight -> replay %s   <-- deviation"
+                                              % (self.points - 1, loop.iterations, loop.elapsed(), sp[0]))
+                        self._arrive(timeout)
+                        return [self._reader(d)]
                 if timeout is None:
                     loop._halt("quiescent")
                 else:
